@@ -370,31 +370,29 @@ example (input : Bytes) := C13_untouched_decrypt toyPrims (worldOut input) (some
   (some (str "kr")) true .sameFile rfl (by simp [earlyCauses])
 
 /-- no such key in the keyring -/
+theorem getKey_bob : Keyring.getKey ks (str "bob") = none := by
+  unfold Keyring.getKey ks
+  rw [List.find?_cons_of_neg (by decide)]
+  rfl
+
 theorem err_keyNotFound (input : Bytes) :
-    (runDecrypt toyPrims (worldOut input) (some (str "in")) (str "bob") (some (str "out")) (some (str "kr")) true).err =
-      some .keyNotFound := by
-  have hu : unlockNamed (worldOut input) ks (str "bob") true = .error .keyNotFound := by
-    have : Keyring.getKey ks (str "bob") = none := by
-      unfold Keyring.getKey ks
-      rw [List.find?_cons_of_neg (by decide)]
-      rfl
-    simp only [unlockNamed, this]
-  simp only [runDecrypt, show sameFile (some (str "in")) (some (str "out")) = false by decide,
-    openInput_file (worldOut_file_in input), worldOut_openKeyring, hu, Bool.false_eq_true, if_false, fail]
+    runDecrypt toyPrims (worldOut input) (some (str "in")) (str "bob") (some (str "out")) (some (str "kr")) true =
+      fail (worldOut input) .keyNotFound :=
+  runDecrypt_fail_unlock (by decide) (openInput_file (worldOut_file_in input)) (worldOut_openKeyring input)
+    (unlockNamed_noKey getKey_bob)
 
 example (input : Bytes) := C13_untouched_decrypt toyPrims (worldOut input) (some (str "in")) (str "bob") (some (str "out"))
-  (some (str "kr")) true .keyNotFound (err_keyNotFound input) (by simp [earlyCauses])
+  (some (str "kr")) true .keyNotFound (by rw [err_keyNotFound]; rfl) (by simp [earlyCauses])
 
 /-- no `--env-pass`: no password -/
-example (input : Bytes) : (runDecrypt toyPrims (worldOut input) (some (str "in")) name (some (str "out")) (some (str "kr")) false).world =
-    worldOut input := by
-  have hu : unlockNamed (worldOut input) ks name false = .error .noPassword := by
-    simp only [unlockNamed, getKey_ks, Keyring.decodePk_encodePk skA skA_len, askPass, Bool.false_eq_true, if_false]
-  have herr : (runDecrypt toyPrims (worldOut input) (some (str "in")) name (some (str "out")) (some (str "kr")) false).err =
-      some .noPassword := by
-    simp only [runDecrypt, show sameFile (some (str "in")) (some (str "out")) = false by decide,
-      openInput_file (worldOut_file_in input), worldOut_openKeyring, hu, Bool.false_eq_true, if_false, fail]
-  exact (C13_untouched_decrypt toyPrims _ _ _ _ _ _ .noPassword herr (by simp [earlyCauses])).2.1
+theorem err_noPassword (input : Bytes) :
+    runDecrypt toyPrims (worldOut input) (some (str "in")) name (some (str "out")) (some (str "kr")) false =
+      fail (worldOut input) .noPassword :=
+  runDecrypt_fail_unlock (by decide) (openInput_file (worldOut_file_in input)) (worldOut_openKeyring input)
+    (unlockNamed_noPass getKey_ks (Keyring.decodePk_encodePk skA skA_len) rfl rfl)
+
+example (input : Bytes) := C13_untouched_decrypt toyPrims (worldOut input) (some (str "in")) name (some (str "out"))
+  (some (str "kr")) false .noPassword (by rw [err_noPassword]; rfl) (by simp [earlyCauses])
 
 example (P : Prims) (w : World) (inf : Option Str) (to : Str) (outf kr : Option Str) (e : Bool) (c : Err)
     (hc : (runDecrypt P w inf to outf kr e).err = some c) := C13_decrypt_causes P w inf to outf kr e c hc
@@ -420,12 +418,12 @@ example := C13_untouched_decrypt_crypto toyPrims (worldOut [1,2,3]) (some (str "
   (k := (keyDecryptIO toyPrims skA skA { inp := [1,2,3] } {}).2.2.1) (snd := (keyDecryptIO toyPrims skA skA { inp := [1,2,3] } {}).2.2.2)
   rfl (by decide) (by decide)
 
-/-- the genuine small file cut inside its first record (132 header bytes + 20): nothing released -/
 set_option maxRecDepth 20000 in
-theorem cut_dec : keyDecrypt toyPrims skA skA (smallCt.take 152) = ([], .ioRead, none) := by decide
+/-- the genuine small file cut inside its first record (132 header bytes + 10): nothing released -/
+theorem cut_dec : keyDecrypt toyPrims skA skA (smallCt.take 142) = ([], .ioRead, none) := by decide
 
-example : (runDecrypt toyPrims (worldOut (smallCt.take 152)) (some (str "in")) name (some (str "out")) (some (str "kr")) true).world =
-    worldOut (smallCt.take 152) :=
+example : (runDecrypt toyPrims (worldOut (smallCt.take 142)) (some (str "in")) name (some (str "out")) (some (str "kr")) true).world =
+    worldOut (smallCt.take 142) :=
   (C13_no_release_no_touch toyPrims _ (some (str "in")) name (some (str "out")) (some (str "kr")) true (by decide)
     (openInput_file (worldOut_file_in _)) (worldOut_openKeyring _) (worldOut_unlock _) cut_dec).2.2
 
@@ -451,17 +449,28 @@ example : (keyDecrypt toyPrims skA skA [1,2,3]).1 = [] ∧ (keyDecrypt toyPrims 
 example : (keyDecrypt toyPrims skA skA C10decEx.file).1 = [] ∧ (keyDecrypt toyPrims skA skA C10decEx.file).2.1 ≠ .ok :=
   C13_no_release_header toyPrims skA skA C10decEx.file (Or.inr (Or.inl (by decide)))
 
-/-- (b) first-record causes on the cut file: header intact, record 0 too short -/
 set_option maxRecDepth 20000 in
-example : ∃ pk spk hh, Noise.readMessage toyPrims ((smallCt.take 152).take 4) skA skA (((smallCt.take 152).drop 4).take handshakeLen) =
-      .ok (pk, spk, hh) ∧ pk.length = 32 ∧ validFileFormat ((smallCt.take 152).take 4) = some true ∧
-    parse1 toyPrims.aead (toyPrims.hkdfFile pk hh) [] chunkSize 0 (((smallCt.take 152).drop 4).drop handshakeLen) = .fail .ioRead := by
-  refine ⟨pK, skA, _, rfl, by decide, by decide, by decide⟩
+/-- (b) first-record causes on the cut file: header intact, record 0 too short — every hypothesis discharged -/
+example : (keyDecrypt toyPrims skA skA (smallCt.take 142)).1 = [] ∧ (keyDecrypt toyPrims skA skA (smallCt.take 142)).2.1 ≠ .ok := by
+  rcases h : Noise.readMessage toyPrims ((smallCt.take 142).take 4) skA skA (((smallCt.take 142).drop 4).take handshakeLen)
+    with e | ⟨pk, spk, hh⟩
+  · exfalso
+    have : (Noise.readMessage toyPrims ((smallCt.take 142).take 4) skA skA
+        (((smallCt.take 142).drop 4).take handshakeLen)).toOption.isSome = true := by decide
+    rw [h] at this; cases this
+  · have hpk : pk.length = 32 := by
+      have : (match Noise.readMessage toyPrims ((smallCt.take 142).take 4) skA skA
+          (((smallCt.take 142).drop 4).take handshakeLen) with | .ok (pk, _, _) => pk.length | .error _ => 0) = 32 := by decide
+      rw [h] at this; exact this
+    refine C13_no_release_first_record toyPrims skA skA (smallCt.take 142) pk spk hh (by decide) (by decide) h hpk
+      (Or.inl (Or.inl ?_))
+    unfold parse1
+    rw [if_pos (by decide)]
 
 /-! released chunks, then a failure: exactly the released chunks are in the output file -/
 
-/-- the genuine small file followed by one byte: chunk `[7,8]` is released, then the trailing data is detected -/
 set_option maxRecDepth 20000 in
+/-- the genuine small file followed by one byte: chunk `[7,8]` is released, then the trailing data is detected -/
 theorem trail_dec : keyDecrypt toyPrims skA skA (smallCt ++ [99]) = ([[7,8]], .unexpectedData, none) := by decide
 
 example : runDecrypt toyPrims (worldOut (smallCt ++ [99])) (some (str "in")) name (some (str "out")) (some (str "kr")) true =
@@ -532,23 +541,32 @@ example (input : Bytes) : runEncrypt toyPrimsZeroDh ⟨pK, eK⟩ (worldOut input
     (some (str "kr")) true (by decide) (openInput_file (worldOut_file_in _)) (worldOut_openKeyring _) getKey_ks
     (Keyring.decodePk_encodePk skA skA_len) (worldOut_unlock _) (rfl : toyPrimsZeroDh.pub eK = some eK) (Or.inl rfl)
 
-example (input : Bytes) : ∃ c, (c ∈ earlyCauses ∨ c = .crypto .other) ∧
-    runEncrypt toyPrimsZeroDh ⟨pK, eK⟩ (worldOut input) (some (str "in")) name name (some (str "out")) (some (str "kr")) true =
-      fail (worldOut input) c ∧ _ :=
+example (input : Bytes) :=
   C13_untouched_encrypt toyPrimsZeroDh ⟨pK, eK⟩ (worldOut input) (some (str "in")) name name (some (str "out")) (some (str "kr")) true
     (by
       rw [C13_untouched_encrypt_zero_dh toyPrimsZeroDh ⟨pK, eK⟩ (worldOut input) (some (str "in")) name name (some (str "out"))
         (some (str "kr")) true (by decide) (openInput_file (worldOut_file_in _)) (worldOut_openKeyring _) getKey_ks
         (Keyring.decodePk_encodePk skA skA_len) (worldOut_unlock _) (rfl : toyPrimsZeroDh.pub eK = some eK) (Or.inl rfl)]
-      decide)
+      intro h; cases h)
 
 /-- password encrypt without a password -/
 example (rnd : Rand) (input : Bytes) := C13_untouched_pass_encrypt toyPrims rnd (pworldOut input) (some (str "in")) (some (str "out"))
-  false (by decide)
+  false (by show (1 : Nat) ≠ 0; decide)
 
 /-- key generate with an empty name on stdin, into an existing keyring file: the file is left alone -/
+theorem keygen_badName (rnd : Rand) (input : Bytes) :
+    runKeyGen toyPrims rnd (worldOut input) (some (str "kr")) true = fail (worldOut input) .badName := by
+  have hr : readName (worldOut input) = some [] := by
+    have : utf8Decode (worldOut input).stdin = some [] := utf8Decode_utf8 []
+    simp only [readName, this]
+    rfl
+  unfold runKeyGen
+  rw [hr]
+  rfl
+
 example (rnd : Rand) (input : Bytes) : (runKeyGen toyPrims rnd (worldOut input) (some (str "kr")) true).world = worldOut input := by
-  obtain ⟨c, _, _, h, _⟩ := C13_untouched_keygen toyPrims rnd (worldOut input) (some (str "kr")) true (by decide)
+  obtain ⟨c, _, _, h, _⟩ := C13_untouched_keygen toyPrims rnd (worldOut input) (some (str "kr")) true
+    (by rw [keygen_badName]; intro h; cases h)
   exact h
 
 end C13Ex
